@@ -650,3 +650,74 @@ Proof.
     apply andb_prop in Ec. destruct Ec as [Ec _]. apply andb_prop in Ec. destruct Ec as [_ Ec].
     destruct (get_tree s tj); discriminate.
 Qed.
+
+(* ---------- what "defined" excludes ---------- *)
+
+Lemma s_next_some x l : s_item x l <> None -> s_next x l <> None.
+Proof.
+  induction l as [|[[i k] v] r IH]; cbn [s_item s_next]; auto.
+  destruct (x =? i); [discriminate|auto].
+Qed.
+
+Lemma s_prev_aux_some x l b : s_item x l <> None -> s_prev_aux x l b <> None.
+Proof.
+  revert b. induction l as [|[[i k] v] r IH]; intros b; cbn [s_item s_prev_aux]; auto.
+  destruct (x =? i); [discriminate|auto].
+Qed.
+
+(* the API-level preconditions are enough: in a state satisfying the invariant the model answers
+   "unspecified" only for an iterator that points at no element of the tree, a tree index out of
+   range, a non-uint32 key or value, a node index malloc cannot hand out, or a CloneDeep onto a
+   non-empty slot / with the wrong number of indexes *)
+Theorem defined_if s o : Inv s ->
+  match o with
+  | OInsert ti k v id =>
+      (ti < length (trees s))%nat /\ is_u32 k = true /\ is_u32 v = true /\
+      (mem k (get_tree s ti) = true \/ exists sz', malloc (live s) (asize s) id = MOk sz')
+  | ODeleteIt ti it | ONext ti it | OPrev ti it =>
+      it = limit \/ it = neg_limit \/ item_of it (get_tree s ti) <> None
+  | OClone src dst new =>
+      (src < length (trees s))%nat /\ (dst < length (trees s))%nat /\ get_tree s dst = E /\
+      Z.of_nat (length new) = tsize (get_tree s src) /\
+      exists sz', malloc_seq (live s) (asize s) new = MOk sz'
+  | _ => True
+  end -> defined s o.
+Proof.
+  intros HI H. unfold defined.
+  pose proof (fun ti => get_tree_ok s ti HI) as Hok.
+  destruct o as [ti k v id|ti k|ti it|ti k|ti k|ti k|ti|ti|ti it|ti it|ti|ti|src dst new]; cbn [step].
+  - destruct H as (H1 & H2 & H3 & H4). apply Nat.ltb_lt in H1. rewrite H1, H2, H3. cbn [andb negb].
+    destruct (mem k (get_tree s ti)); [exact I|].
+    destruct H4 as [H4|[sz' H4]]; [discriminate|]. rewrite H4. exact I.
+  - destruct (Hok ti) as [Hrb Hb]. pose proof (delete_key_defined k _ Hrb) as D.
+    destruct (mem k (get_tree s ti)); [destruct D as [t' ->]|rewrite D]; exact I.
+  - destruct (Z.eqb_spec it limit); [exact I|]. destruct (Z.eqb_spec it neg_limit); [exact I|].
+    cbn [orb]. destruct H as [H|[H|H]]; try contradiction.
+    destruct (item_of it (get_tree s ti)) as [[k v]|] eqn:Ei; [|congruence].
+    destruct (Hok ti) as [Hrb Hb]. pose proof (delete_key_defined k _ Hrb) as D.
+    rewrite (mem_elems k _ Hb) in D. rewrite item_of_spec in Ei. apply s_item_in in Ei.
+    assert (Hm : s_mem k (elems (get_tree s ti)) = true).
+    { clear -Ei. induction (elems (get_tree s ti)) as [|[[i0 k0] v0] r IH]; [destruct Ei|].
+      cbn [s_mem]. destruct Ei as [Ei|Ei]; [inversion Ei; subst; rewrite Z.eqb_refl; reflexivity|].
+      rewrite IH by auto. apply orb_true_r. }
+    rewrite Hm in D. destruct D as [t' ->]. exact I.
+  - exact I.
+  - destruct (Hok ti) as [Hrb Hb].
+    rewrite it_find_le_spec; auto using get_tree_nodup, get_tree_ids_ok.
+  - exact I.
+  - exact I.
+  - exact I.
+  - destruct (Z.eqb_spec it limit); [exact I|]. destruct (Z.eqb_spec it neg_limit); [exact I|].
+    destruct H as [H|[H|H]]; try contradiction. cbn [snd]. rewrite next_in_spec.
+    rewrite item_of_spec in H. apply s_next_some in H.
+    destruct (s_next it (elems (get_tree s ti))); [exact I|congruence].
+  - destruct (Z.eqb_spec it neg_limit); [exact I|]. destruct (Z.eqb_spec it limit); [exact I|].
+    destruct H as [H|[H|H]]; try contradiction. cbn [snd]. rewrite prev_in_spec.
+    rewrite item_of_spec in H. apply (s_prev_aux_some _ _ None) in H. unfold s_prev.
+    destruct (s_prev_aux it (elems (get_tree s ti)) None); [exact I|congruence].
+  - exact I.
+  - exact I.
+  - destruct H as (H1 & H2 & H3 & H4 & sz' & H5).
+    apply Nat.ltb_lt in H1. apply Nat.ltb_lt in H2. rewrite H1, H2, H3. apply Z.eqb_eq in H4. rewrite H4.
+    cbn [andb negb is_E]. rewrite H5. exact I.
+Qed.
